@@ -39,13 +39,21 @@ def arg_code(a, bs):
     return abs_code(a)
 
 
+FNVAR = ["fresh"]          # the variant of the test function of the current reference run
+
+
 def fn_ref(o, key, item, args, bs, nones):
-    """the test function on abstract entries: expected values (list of ints) or None"""
+    """the test function on abstract entries: expected values (list of ints) or None — computed on the abstract entries,
+    i.e. on clones: what fn does to the object it is handed does not matter here, only the value it stands for"""
     if item[0] in ("L", "T"):
         if item[1] // 8 in nones["pids"]:
             return None
     elif abs_code(item) in nones["codes"]:
         return None
+    if item[0] == "L" and FNVAR[0] == "ident":
+        return TENS[0](item[1], bs).reshape(-1).tolist()          # fn returns its argument untouched
+    if item[0] == "L" and FNVAR[0] == "mutate_none":
+        raise Gray("fn updates its argument in place and returns None")
     codes = [arg_code(item, bs)] + [arg_code(a, bs) for a in args]
     h = combine(key, codes)
     if isinstance(h, torch.Tensor):
@@ -138,6 +146,7 @@ def reference(case):
             if o["dev"] != "absent" and o["dev"] != out[2][1] and not o["checked"]:
                 errs.add("RuntimeError")                       # device and out.device must be equal
         del MISSING[:]
+        FNVAR[0] = case.get("fnvar", "fresh")
         r = ref_level(o, S, others, (), True, nones)
         if MISSING:
             errs.add("KeyError")
